@@ -211,6 +211,19 @@ bad_format:
  */
 int vnadata_set_format(vnadata_t *vdp, const char *format)
 {
+    return _vnadata_set_format(vdp, format, VNAERR_USAGE);
+}
+
+/*
+ * _vnadata_set_format: set the format string
+ *   @vdp: a pointer to the vnadata_t structure
+ *   @format: format string as in vnadata_set_format
+ *   @category: how to report an invalid format: VNAERR_USAGE when it
+ *	comes from the caller, VNAERR_SYNTAX when it comes from a file
+ */
+int _vnadata_set_format(vnadata_t *vdp, const char *format,
+	vnaerr_category_t category)
+{
     vnadata_internal_t *vdip;
     vnadata_format_descriptor_t *vfdp_new = NULL;
     size_t length;
@@ -253,9 +266,9 @@ int vnadata_set_format(vnadata_t *vdp, const char *format)
     nfields = 1;
     cur = format_copy;
     for (const char *cp = format; *cp != '\000'; ++cp) {
-	if (*cp > 0x7e) {
-	    _vnadata_error(vdip, VNAERR_USAGE, "vnadata_set_format: "
-		    "invalid char '\\%02x' in format", *cp);
+	if ((unsigned char)*cp > 0x7e) {
+	    _vnadata_error(vdip, category, "vnadata_set_format: "
+		    "invalid char '\\%02x' in format", (unsigned char)*cp);
 	    goto out;
 	}
 	if (isspace(*cp)) {
@@ -286,7 +299,7 @@ int vnadata_set_format(vnadata_t *vdp, const char *format)
     cur = format_copy;
     for (int i = 0;;) {
 	if (parse_format(&vfdp_new[i], cur) == -1) {
-	    _vnadata_error(vdip, VNAERR_USAGE,
+	    _vnadata_error(vdip, category,
 		    "invalid format specifier: \"%s\"", cur);
 	    goto out;
 	}
